@@ -264,6 +264,7 @@ Definition sender_ok (s : state) : Prop :=
   | SIdle => delivered s = allGroups (providers s) (targets s)
   | SSnap k acc => acc = fold_left (ag_prov (targets s)) (firstn k (providers s)) []
   | SHave acc => acc = allGroups (providers s) (targets s)
+  | SRearm => True      (* the pending put-back of the trigger is the propagation in flight *)
   end.
 
 Definition Inv (s : state) : Prop := quiescent s -> sender_ok s.
@@ -360,23 +361,26 @@ Proof.
     destruct (sender s) eqn:S; try discriminate. destruct (trigger s); [|discriminate].
     inversion Hs; subst s'. intros _. unfold sender_ok. cbn. reflexivity.
   - (* ESnapProv *)
-    destruct (sender s) as [|k acc|] eqn:S; try discriminate.
+    destruct (sender s) as [|k acc| |] eqn:S; try discriminate.
     destruct (nth_error (providers s) k) as [p|] eqn:N; [|discriminate].
     inversion Hs; subst s'. intros Q. unfold quiescent in Q. cbn in Q.
     specialize (HI Q). unfold sender_ok in *. rewrite S in HI. cbn [sender providers targets].
     rewrite (firstn_S_nth _ _ _ _ N), fold_left_app. cbn. now rewrite <- HI.
   - (* ESnapDone *)
-    destruct (sender s) as [|k acc|] eqn:S; try discriminate.
+    destruct (sender s) as [|k acc| |] eqn:S; try discriminate.
     destruct (Nat.leb (length (providers s)) k) eqn:L; [|discriminate].
     inversion Hs; subst s'. intros Q. unfold quiescent in Q. cbn in Q.
     specialize (HI Q). unfold sender_ok in *. rewrite S in HI. cbn.
     apply Nat.leb_le in L. rewrite firstn_all2 in HI; auto.
   - (* ESend *)
-    destruct (sender s) as [| |acc] eqn:S; try discriminate.
+    destruct (sender s) as [| |acc|] eqn:S; try discriminate.
     destruct (cwait s).
     + inversion Hs; subst s'. intros Q. unfold quiescent in Q. cbn in Q.
       specialize (HI Q). unfold sender_ok in *. rewrite S in HI. cbn. auto.
-    + inversion Hs; subst s'. intros [Q _]. cbn in Q. discriminate.
+    + inversion Hs; subst s'. intros _. exact I.
+  - (* ERearm *)
+    destruct (sender s) eqn:S; try discriminate.
+    inversion Hs; subst s'. intros [Q _]. cbn in Q. discriminate.
   - (* EWait *)
     destruct (cwait s); [discriminate|]. inversion Hs; subst s'.
     intros Q. unfold quiescent in Q. cbn in Q. specialize (HI Q).
@@ -424,6 +428,7 @@ Theorem no_lost_update : forall tr s,
   | SIdle => delivered s = allGroups (providers s) (targets s)
   | SSnap k acc => acc = fold_left (ag_prov (targets s)) (firstn k (providers s)) []
   | SHave acc => acc = allGroups (providers s) (targets s)
+  | SRearm => True
   end.
 Proof.
   intros tr s H. pose proof (run_inv _ _ _ inv_init H) as HI.
@@ -588,6 +593,7 @@ Proof.
   - destruct (sender s); try discriminate. destruct (Nat.leb _ _); [|discriminate].
     inversion Hs; subst s'. auto.
   - destruct (sender s); try discriminate. destruct (cwait s); inversion Hs; subst s'; auto.
+  - destruct (sender s); try discriminate. inversion Hs; subst s'. auto.
   - destruct (cwait s); [discriminate|]. inversion Hs; subst s'. auto.
   - destruct (cwait s); [|discriminate]. inversion Hs; subst s'. auto.
   - unfold reload in Hs.
@@ -632,7 +638,7 @@ Open Scope nat_scope.
    trigger, the consumer does not walk away *)
 Definition internal (l : label) : bool :=
   match l with
-  | ELock _ | ESub _ | EUnlock _ | ETrig _ | ETake | ESnapProv | ESnapDone | ESend | EWait => true
+  | ELock _ | ESub _ | EUnlock _ | ETrig _ | ETake | ESnapProv | ESnapDone | ESend | ERearm | EWait => true
   | _ => false
   end.
 
@@ -654,7 +660,7 @@ Definition urank (w : nat) (p : prov) : nat :=
   | UTrig => 1 + w
   end.
 Definition srank (n : nat) (st : sstate) : nat :=
-  match st with SIdle => 0 | SSnap k _ => (n - k) + 3 | SHave _ => 2 end.
+  match st with SIdle => 0 | SSnap k _ => (n - k) + 3 | SHave _ => 2 | SRearm => n + 6 end.
 Definition rank (s : state) : nat :=
   (if trigger s then W s else 0) + list_sum (map (urank (W s)) (providers s))
   + srank (length (providers s)) (sender s) + (if cwait s then 0 else 1).
@@ -708,18 +714,21 @@ Proof.
   - destruct (sender s) eqn:S; try discriminate. destruct (trigger s) eqn:T; [|discriminate].
     inversion Hs; subst s'. unfold rank, W. cbn [providers trigger sender cwait]. rewrite S, T.
     cbn [srank]. unfold list_sum. lia.
-  - destruct (sender s) as [|k acc|] eqn:S; try discriminate.
+  - destruct (sender s) as [|k acc| |] eqn:S; try discriminate.
     destruct (nth_error (providers s) k) eqn:N; [|discriminate].
     inversion Hs; subst s'. unfold rank, W. cbn [providers trigger sender cwait]. rewrite S.
     assert (k < length (providers s)) by (apply nth_error_Some; congruence).
     cbn [srank]. lia.
-  - destruct (sender s) as [|k acc|] eqn:S; try discriminate.
+  - destruct (sender s) as [|k acc| |] eqn:S; try discriminate.
     destruct (Nat.leb (length (providers s)) k) eqn:L; [|discriminate].
     inversion Hs; subst s'. unfold rank, W. cbn [providers trigger sender cwait]. rewrite S.
     cbn [srank]. lia.
-  - destruct (sender s) as [| |acc] eqn:S; try discriminate.
+  - destruct (sender s) as [| |acc|] eqn:S; try discriminate.
     rewrite (Hf eq_refl) in Hs. inversion Hs; subst s'.
     unfold rank, W. cbn [providers trigger sender cwait]. rewrite S, (Hf eq_refl). cbn [srank]. lia.
+  - destruct (sender s) eqn:S; try discriminate. inversion Hs; subst s'.
+    unfold rank, W. cbn [providers trigger sender cwait]. rewrite S. cbn [srank].
+    destruct (trigger s); lia.
   - destruct (cwait s) eqn:C; [discriminate|]. inversion Hs; subst s'.
     unfold rank, W. cbn [providers trigger sender cwait]. rewrite C. lia.
 Qed.
@@ -748,7 +757,7 @@ Theorem progress : forall s,
   Inv s -> NoDup (map pname (providers s)) ->
   converged s \/ exists l s', internal l = true /\ fair s l /\ step s l = Some s'.
 Proof.
-  intros s HI Hnd. destruct (sender s) as [|k acc|acc] eqn:S.
+  intros s HI Hnd. destruct (sender s) as [|k acc|acc|] eqn:S.
   - destruct (trigger s) eqn:T.
     + right. exists ETake. eexists. split; [reflexivity|]. split; [intro; discriminate|].
       cbn. rewrite S, T. reflexivity.
@@ -776,6 +785,9 @@ Proof.
       cbn. rewrite S, C. reflexivity.
     + exists EWait. eexists. split; [reflexivity|]. split; [intro; discriminate|].
       cbn. rewrite C. reflexivity.
+  - (* the put-back is enabled whether or not the trigger has been armed meanwhile *)
+    right. exists ERearm. eexists. split; [reflexivity|]. split; [intro; discriminate|].
+    cbn. rewrite S. reflexivity.
 Qed.
 
 (* internal steps never touch the configuration, and a converged state has nothing left to do *)
@@ -791,6 +803,7 @@ Proof.
     try (destruct (find (hasname pn) (providers s)) as [p|] eqn:Fp; [|discriminate];
          rewrite (G _ _ Fp) in Hs; discriminate).
   - rewrite S, T in Hs. discriminate.
+  - rewrite S in Hs. discriminate.
   - rewrite S in Hs. discriminate.
   - rewrite S in Hs. discriminate.
   - rewrite S in Hs. discriminate.
@@ -818,7 +831,7 @@ Definition ex_g3 : group := mkG 8 3 1.
 Definition ex_cfg : cfg := [(1%Z, [(1%Z, true)]); (2%Z, [(1%Z, true); (2%Z, true)]); (3%Z, [])].
 Definition ex_prefix : list label :=
   [EReload ex_cfg; EUpdate 0 [Some ex_g1; Some ex_g3]; ELock 0; ESub 0; ETake; ESnapProv; ESub 0;
-   EUpdate 1 [Some ex_g3]; EUnlock 0; ESnapProv; ESnapProv; ESnapDone; ESend; ETrig 0;
+   EUpdate 1 [Some ex_g3]; EUnlock 0; ESnapProv; ESnapProv; ESnapDone; ESend; ETrig 0; ERearm;
    EUpdate 0 [Some ex_g2; None]].
 Definition ex_cont : list label :=
   [ELock 0; ELock 1; ESub 0; ESub 1; EWait; ETake; ESub 0; EUnlock 0; EUnlock 1; ETrig 1;
@@ -1052,6 +1065,7 @@ Proof.
   - destruct (sender s); try discriminate. destruct (Nat.leb _ _); [|discriminate].
     inversion Hs; subst s'. exact HI.
   - destruct (sender s); try discriminate. destruct (cwait s); inversion Hs; subst s'; exact HI.
+  - destruct (sender s); try discriminate. inversion Hs; subst s'. exact HI.
   - destruct (cwait s); [discriminate|]. inversion Hs; subst s'. exact HI.
   - destruct (cwait s); [|discriminate]. inversion Hs; subst s'. exact HI.
   - exfalso. eapply Hnr. reflexivity.
